@@ -24,7 +24,7 @@ RULE = ("cases: plog models (boolean and small integer leaves, explicit and gene
         "helper ids incl. unknown ids; injected faults: None for some objectives, ValueError/RuntimeError/custom exception, generator result. "
         "non-trivial: >=2 columns with different objective entries and an optimum that is not all-zero; distinct by digest of (recipe, objectives, flags)"
         ' Also: configurator rows with coefficients beyond 32 bits.')
-BUDGET = {"quick": (12, 260, 90), "thorough": (16, 2500, 1200)}
+BUDGET = {"quick": (12, 780, 90), "thorough": (16, 2500, 1200)}
 MANDATORY = ["judged:solve:polyhedron-is-asserted-model", "judged:solve:objective-alignment", "judged:solve:reported-dict", "judged:solve:optimal",
              "judged:solve:satisfies-model(solver-safe)", "judged:solve:none->{}", "judged:select:polyhedron-is-own", "judged:select:reported-dict",
              "judged:select:only_leafs", "judged:select:none->{}", "judged:select:exception->InfeasibleError", "judged:select:optimal",
